@@ -613,7 +613,8 @@ def _pair_history_case(task):
 
     def mk():
         with quiet():
-            rel = AurelCore(fd, verbose=False,
+            # (component style also runs with the printing option on)
+            rel = AurelCore(fd, verbose=style != 'arrays',
                             clear_cache_every_nbr_calc=10 ** 9)
         rel.data.update(inp)
         rel.freeze_data()
